@@ -188,6 +188,12 @@ def run_case(arg):
     try:
         init = case["init"]
         obj = build(init)
+        if init["ns"] == "torch" and "ll" in init["fields"] and ci % 4 == 1 \
+                and all(o["op"] in ("select", "dict", "pickle", "partconcat") for o in case["ops"]):
+            # the log-likelihood is the result of a differentiable computation (a non-leaf tensor)
+            import torch
+            w_ = torch.ones(1, requires_grad=True, dtype=obj.log_likelihood.dtype)
+            obj.log_likelihood = obj.log_likelihood * w_
         ev0 = None
         if init["ev"] == "own":
             import smcdrv
